@@ -116,6 +116,9 @@ def findValueChoice (e : BEnv) (var : XmlVar) (value : J) : Except Err (Option V
 /-- `bind_text` for a var that is not a compound field -/
 def bindTextPlain (e : BEnv) (cfg : ParserConfig) (var : VarCore) (value : J) : Except Err Val :=
   if var.anyType || var.isWildcard then rawVal value
+  -- `if not var.tokens and type(value) in var.types: return value`
+  else if !var.tokens && (match scalarType value with | some t => var.types.contains t | none => false) then
+    rawVal value
   else
     match serializeJ value with
     | .error err => .error err
@@ -195,7 +198,8 @@ def choiceVar (c : VarCore) : XmlVar := c.toVar
 /-- `DictDecoder.bind_derived_value` -/
 def bindDerivedValueWith (e : BEnv) (rec : Rec) (Γ : Ctx) (cfg : ParserConfig) (m : XmlMeta) (var : XmlVar)
     (kvs : List (Str × J)) : ND Val :=
-  match kvGet kvs kQName, kvGet kvs kType, kvGet kvs kValue with
+  -- `data["qname"]`, `data.get("type")`, `data["value"]`
+  match kvGet kvs kQName, some ((kvGet kvs kType).getD J.null), kvGet kvs kValue with
   | some (.str qname), some xt, some params =>
     let xsiType : Except Err (Option Str) := match xt with
       | .null => .ok none
@@ -274,8 +278,8 @@ def bindItemWith (e : BEnv) (rec : Rec) (Γ : Ctx) (cfg : ParserConfig) (m : Xml
   else
     match value with
     | .obj kvs =>
-      if keysEq kvs anyKeys then rec cfg anyId value
-      else if keysEq kvs derivedKeys then bindDerivedValueWith e rec Γ cfg m var kvs
+      if isGeneric kvs anyRequired anyKeys then rec cfg anyId value
+      else if isGeneric kvs derivedRequired derivedKeys then bindDerivedValueWith e rec Γ cfg m var kvs
       else bindComplexWith rec Γ cfg m var value
     | _ => ND.ofExcept (bindText e cfg var value)
 
